@@ -14,10 +14,14 @@ use crate::core::ctx::Ctx;
 use crate::core::rng::Rng;
 use crate::core::session::{guard, Outcome, Session};
 
-fn queries(rng: &mut Rng) -> (String, &'static str) {
+fn queries(rng: &mut Rng, hostile: &str) -> (String, &'static str) {
     let lit = *rng.pick(&["a", "A", "ab", "Ab", "a ", "a  b", "a b"]);
     let n = rng.range(0, 3);
-    match rng.below(17) {
+    match rng.below(21) {
+        // two literals: the first one (fixed per case) is hostile to any quote scanner (ends in a
+        // backslash, holds a doubled quote, comment openers, a double quote), the second varies in
+        // case / spacing
+        17..=20 => (format!("SELECT id FROM t1 WHERE c <> '{}' AND c = '{}'", hostile, lit), "two-literals-first-hostile"),
         0 => (format!("SELECT id FROM t1 WHERE c = '{}'", lit), "string-literal-case-space"),
         1 => (format!("SELECT id FROM t1 WHERE c = '{}' ", lit), "trailing-space"),
         2 => (format!("SELECT id  FROM  t1 WHERE c = '{}'", lit), "inner-whitespace"),
@@ -67,6 +71,7 @@ pub fn run(ctx: &mut Ctx) {
                 s.must(&format!("INSERT INTO {} VALUES ({}, {}, '{}')", t, next_id, rng.range(0, 3), rng.pick(&["a", "A", "ab", "a b"])));
             }
         }
+        let hostile = *rng.pick(&["C:\\", "it''s", "\"q\"", "--x", "/* y", "a\\b", "", "x\\"]);
         let cache = QueryResultCache::new(*rng.pick(&[2usize, 3, 1000]));
         let mut log: Vec<String> = Vec::new();
         for _ in 0..rng.range(6, 24) {
@@ -87,7 +92,7 @@ pub fn run(ctx: &mut Ctx) {
                 let o = s.exec(&sql);
                 log.push(format!("{}  -- {} (invalidate_table({:?}))", sql, crate::core::util::trunc(&o.brief(), 30), table));
             } else {
-                let (sql, kind) = queries(&mut rng);
+                let (sql, kind) = queries(&mut rng, hostile);
                 ctx.eval();
                 let sig = QuerySignature::from_sql(&sql);
                 let hit = match guard(|| cache.get(&sig)) {
